@@ -236,6 +236,7 @@ type File struct {
 	OnlyCalledFrom [][2]string // (callee name, caller): mechanical call-site scan
 	ConstTables []string // globals whose composite-literal initialiser is read from the source
 	GlobalInvs []*GlobalInv
+	Deterministic [][2]string // (package name, function whose report carries the scan): no map iteration and no clock / randomness / environment reads anywhere in the package
 	OverridesAll [][3]string // (Type, embedded field, function whose report carries the scan): the type declares every error-returning method of the embedded interface itself
 	FieldIs [][2]string // (Type.field, function): the function-valued field only ever holds this function (scan)
 }
@@ -256,4 +257,5 @@ func (f *File) Merge(g *File) {
 	f.GlobalInvs = append(f.GlobalInvs, g.GlobalInvs...)
 	f.FieldIs = append(f.FieldIs, g.FieldIs...)
 	f.OverridesAll = append(f.OverridesAll, g.OverridesAll...)
+	f.Deterministic = append(f.Deterministic, g.Deterministic...)
 }
